@@ -219,6 +219,38 @@ func checkC14(c *Ctx, r *Report) {
 					outside = fnKey(g) + " (which hands the MQTT-SN dispatcher a packet it did not read from the client)"
 				}
 			}
+			// structurally (for every duration value, not only the explored ones): the send - or every call of the
+			// helper that contains it - is dominated by the test Duration == 0 on the decoded DISCONNECT
+			plain := func(site ssa.Instruction) bool {
+				for _, g := range guardsOf(site.Block()) {
+					x, y, op, isCmp := cmpGuard(g)
+					if !isCmp || op != token.EQL {
+						continue
+					}
+					if k, isC := constInt(y); isC && k == 0 && c.valueIsField(x, pkPackets1, "Disconnect", "Duration") {
+						return true
+					}
+				}
+				return false
+			}
+			guardedPlain := plain(s.Call.(ssa.Instruction))
+			if !guardedPlain && s.Fn != m.snDisp {
+				n, all := 0, true
+				for _, g := range c.repoFuncs("gateway") {
+					allInstrs(g, func(i ssa.Instruction) {
+						if ci, ok := i.(ssa.CallInstruction); ok && staticCallee(ci.Common()) == s.Fn {
+							n++
+							if !plain(i) {
+								all = false
+							}
+						}
+					})
+				}
+				guardedPlain = n > 0 && all
+			}
+			if outside == "" && !guardedPlain {
+				outside = "a path that is not guarded by Duration == 0 of the client's DISCONNECT (a DISCONNECT with a sleep duration, or another condition, reaches the send)"
+			}
 			if outside != "" {
 				r.bad("R2", key, c.instrPos(s.Call), "the function sending the MQTT DISCONNECT is also entered from "+outside+", which is not part of the handling of a client DISCONNECT: the will is cancelled although the client sent no plain DISCONNECT")
 			} else {
@@ -447,6 +479,47 @@ func checkC11(c *Ctx, r *Report) {
 		}
 		if okc {
 			r.ok("R2", key, c.pos(m.snDisp.Pos()), "buffer flushed when the client becomes active")
+		}
+	}
+	// R2d: the reply to DISCONNECT(duration) is sent, not queued: at the moment it is handed to the sender the
+	// state is not Asleep (the client waits for this reply before it goes to sleep; a queued reply is delivered
+	// one sleep period late and the client's Sleep() times out)
+	for _, st := range []int64{stActive, stAwake, stAsleep} {
+		cells := map[string]aval{"state": kint(st), "type:sn": kstr("*packets1.Disconnect"), "f:packets1.Disconnect.Duration": kint(30)}
+		if kc := c.keepAliveCell(); kc != "" {
+			cells[kc] = kint(10)
+		}
+		outs, _ := m.run(m.snDisp, cells)
+		key := fmt.Sprintf("%s/DISCONNECT(duration):reply-not-queued", stateNames[st])
+		okc := len(outs) > 0
+		detail := ""
+		for _, o := range outs {
+			if !(len(o.Ret) > 0 && o.Ret[len(o.Ret)-1] == "nil") {
+				continue
+			}
+			cur := st
+			replied := false
+			for _, ev := range o.Events {
+				if strings.HasPrefix(ev, "set state=") {
+					fmt.Sscanf(ev, "set state=%d", &cur)
+				}
+				if strings.HasPrefix(ev, "sn:") && strings.Contains(ev, "Disconnect") {
+					replied = true
+					if cur == stAsleep {
+						okc, detail = false, "the DISCONNECT reply is handed to the sender while the state is Asleep, i.e. it is queued instead of sent: "+strings.Join(o.Events, " ; ")
+					}
+				}
+			}
+			if !replied {
+				okc, detail = false, "a DISCONNECT with a sleep duration is accepted without the DISCONNECT reply: "+strings.Join(o.Events, " ; ")
+			}
+		}
+		if len(outs) == 0 {
+			r.undecided("R2", key, c.pos(m.snDisp.Pos()), "DISCONNECT(duration) case not explored")
+		} else if okc {
+			r.ok("R2", key, c.pos(m.snDisp.Pos()), firstOutcome(outs))
+		} else {
+			r.bad("R2", key, c.pos(m.snDisp.Pos()), detail)
 		}
 	}
 	// R4: answers to the gateway's own sleep pings are not passed (queued) to a
